@@ -705,6 +705,12 @@ func ruleID2(c *Ctx) []Ob {
 			}
 		})
 		if rootFunc(wc.Fn) != wc.Fn {
+			// a closure of a function that runs a scan (bulk path)
+			allCalls(rootFunc(wc.Fn), func(call ssa.CallInstruction) {
+				if c.calleeEff(call)&EffCursor != 0 {
+					scan = true
+				}
+			})
 			// a consumer closure of a scan
 			for _, mc := range makeClosuresOf(wc.Fn) {
 				for _, ref := range realReferrers(mc) {
